@@ -20,6 +20,7 @@ From SV Require Model.Utf8 Model.Parser Model.ParseTime Model.Transforms Model.R
                Proofs.ParserProofs Proofs.PipelineSerializerProofs Proofs.TagTemplateProofs.
 From SV Require Import Model.Pipeline Proofs.PipelineProofs Proofs.PipelineWitnesses.
 From SV Require Import Model.PipelineVariants Proofs.PipelineFollowup.
+From SV Require Model.PipelinePool Proofs.PipelinePoolProofs.
 
 (* 1. pipeline_total.  For every accepted configuration, every reachable state of the agent and of the connection
    (so: whatever was received before, on this or any other connection) and EVERY byte string presented as a record:
@@ -398,3 +399,63 @@ Proof.
   exact (conj table_variant_panics_at_10 (conj table_variant_agrees_elsewhere (conj parse_rfc3339_with_real fraction_table_variant_refuted))).
 Qed.
 Print Assumptions C07_fraction_table_variant_refuted.
+
+(* ---- wave-4 follow-up: the POOLED LogRecord (Model/PipelinePool.v, Proofs/PipelinePoolProofs.v) ---- *)
+
+(* 18. syslogParser.Parse overwrites every field and flag of the LogRecord object the allocator hands it: whatever the
+   object carried from its previous use (any field content, any RawLength, Unescaped set by a multi-line record or by the
+   unescape transform), the record after Parse is the parser's result and nothing else. *)
+Theorem C07_recycled_record_overwritten :
+  forall (cell r : Ps.record), PipelinePool.write_record PipelinePool.FlagAssign cell r = r.
+Proof. exact PipelinePoolProofs.write_record_assign. Qed.
+Print Assumptions C07_recycled_record_overwritten.
+
+(* 19. neighbour independence through the pool.  For every configuration, every sequence of byte strings, every state,
+   EVERY initial content of the allocator's pool (objects with arbitrary fields and flags), and EVERY schedule (which
+   pooled object sync.Pool.Get returns for each record, or a new one; whether the transforms set record.Unescaped before
+   the release): the pipeline that writes each record into a recycled object returns exactly what the pipeline with a
+   brand-new record each time returns - states, results, every delivered byte.  No hypothesis on the configuration: it is
+   an equality of runs, so it also transports panics; with config_ok the pooled run is total and keeps the invariants. *)
+Theorem C07_pooled_neighbour_independent :
+  (forall (O : T.oracles) cfg inputs g c (p : PipelinePool.pool) now clk (sch : list PipelinePool.sched_item),
+     PipelinePool.drop_pool (PipelinePool.process_records_pooled O PipelinePool.FlagAssign cfg g c p now clk sch inputs) =
+     process_records O cfg g c now clk inputs) /\
+  (forall (O : T.oracles) cfg inputs g c p now clk sch i,
+     PipelinePool.delivered (PipelinePool.drop_pool (PipelinePool.process_records_pooled O PipelinePool.FlagAssign cfg g c p now clk sch inputs)) i =
+     PipelinePool.delivered (process_records O cfg g c now clk inputs) i) /\
+  (forall (O : T.oracles) cfg (inputs : list bytes) g c p now clk sch,
+     config_ok O cfg -> ginv O cfg g -> cinv O cfg g c ->
+     exists g' c' p' rs,
+       PipelinePool.process_records_pooled O PipelinePool.FlagAssign cfg g c p now clk sch inputs = Ok (g', c', p', rs) /\
+       process_records O cfg g c now clk inputs = Ok (g', c', rs) /\
+       ginv O cfg g' /\ cinv O cfg g' c' /\ length rs = length inputs).
+Proof.
+  exact (conj PipelinePoolProofs.process_records_pooled_independent
+        (conj PipelinePoolProofs.delivered_pooled PipelinePoolProofs.process_records_pooled_total)).
+Qed.
+Print Assumptions C07_pooled_neighbour_independent.
+
+(* 20. The seeded variant "if the message holds a newline { record.Unescaped = true }" (FlagSetOnly: a variant, not the
+   code): for EVERY object and result the flag of the previous use survives (first conjunct); witness on ex_cfg
+   (fluentd output with the unescape rewrite of "log"): the multi-line record "... - first LF second", then
+   "... - boom\n\tat Foo" written into the SAME object (schedule Some 0) is delivered - one event - with other bytes than
+   alone; with a new object for the second record (what single-record tests exercise) there is no difference; the flag
+   may also come from a transform of an earlier single-line record; the code (FlagAssign) delivers it as alone. *)
+Theorem C07_flag_set_only_variant_refuted :
+  (forall cell r, PipelinePool.write_record PipelinePool.FlagSetOnly cell r =
+                  PipelinePool.set_flag r (Ps.unescaped r || Ps.unescaped cell)) /\
+  PipelinePoolProofs.streams_eqb
+    (PipelinePool.delivered (PipelinePoolProofs.pool_run PipelinePool.FlagSetOnly [] [(None, false); (Some 0%nat, false)]
+                               [PipelinePoolProofs.rec_multi; PipelinePoolProofs.rec_escaped]) 1)
+    (PipelinePool.delivered (PipelinePoolProofs.alone_run PipelinePoolProofs.rec_escaped) 0) = false /\
+  PipelinePoolProofs.streams_eqb
+    (PipelinePool.delivered (PipelinePoolProofs.pool_run PipelinePool.FlagAssign [] [(None, false); (Some 0%nat, false)]
+                               [PipelinePoolProofs.rec_multi; PipelinePoolProofs.rec_escaped]) 1)
+    (PipelinePool.delivered (PipelinePoolProofs.alone_run PipelinePoolProofs.rec_escaped) 0) = true /\
+  length (PipelinePool.delivered (PipelinePoolProofs.alone_run PipelinePoolProofs.rec_escaped) 0) = 1%nat.
+Proof.
+  split; [exact PipelinePoolProofs.write_record_set_only|].
+  destruct PipelinePoolProofs.flag_set_only_variant_refuted as (H1 & _ & _ & _ & _ & H6 & H7).
+  exact (conj H1 (conj H6 H7)).
+Qed.
+Print Assumptions C07_flag_set_only_variant_refuted.
